@@ -150,10 +150,14 @@ structure MSt where
   inComment : Bool := false
   comment : List Char := []
 
-/-- Python `str.isspace` on ASCII -/
+/-- Python `str.isspace` (what `str.strip()` removes): the 29 code points  U+0009..000D, 001C..001F, 0020,
+0085, 00A0, 1680, 2000..200A, 2028, 2029, 202F, 205F, 3000  (compared with `chr(c).isspace()` for every
+code point each run) -/
 def pySpace (c : Char) : Bool :=
   c = ' ' || c = '\t' || c = '\n' || c = '\r' || c.toNat = 11 || c.toNat = 12 ||
-  (28 ≤ c.toNat && c.toNat ≤ 31)
+  (28 ≤ c.toNat && c.toNat ≤ 31) || c.toNat = 0x85 || c.toNat = 0xA0 || c.toNat = 0x1680 ||
+  (0x2000 ≤ c.toNat && c.toNat ≤ 0x200A) || c.toNat = 0x2028 || c.toNat = 0x2029 || c.toNat = 0x202F ||
+  c.toNat = 0x205F || c.toNat = 0x3000
 
 def strip (s : List Char) : List Char :=
   ((s.dropWhile pySpace).reverse.dropWhile pySpace).reverse
@@ -287,5 +291,42 @@ def plazy {K : Type} (rd : List Char → Option K) : PState K → Bool → List 
 def parseString {K : Type} (rd : List Char → Option K) (cs : List Char) : Option (PTree K) :=
   let p := tokeniseP cs
   plazy rd {} false p.1 p.2
+
+/-! ### which names survive `parse_string(get_newick())`
+
+The writer / tokeniser / parser triple returns a node's name unchanged exactly when `roundTrips` holds
+(sufficiency is `newick_string_roundtrip`; each excluded class has a counterexample theorem and the
+predicate is compared with the real round trip on adversarial names every run):
+  * the empty name is the model's "no name";
+  * a newline ends an unquoted label and is an error inside a quoted one;
+  * a leading single quote: `'a` is written `'''a'`, read as an empty label followed by a quoted one
+    (`'a'` is written verbatim and read back as `a`)            — known finding C09-newick-leading-quote-name;
+  * a name that is one of `( ) , : ; [` is taken for the punctuation by `parse_string`, quoted or not
+                                                                   — known finding C09-newick-punctuation-name;
+  * an UNQUOTED name (none of ``[]'"(),:;_`` in it) is `strip()`ped by the tokeniser, so it must not begin
+    or end with white space other than the blank (blanks are written as `_`, which is not stripped). -/
+/-- the strings `parse_string` compares tokens with -/
+def isPunTokChar (c : Char) : Bool := c = '(' || c = ')' || c = ',' || c = ':' || c = ';'
+
+/-- a label that is not one of the punctuation strings -/
+def notPunLab (s : List Char) : Bool :=
+  match s with
+  | [c] => !isPunTokChar c && c != '['
+  | _ => true
+
+/-- white space that `munge` does not turn into an underscore -/
+def hardSpace (c : Char) : Bool := pySpace c && c != ' '
+
+def roundTrips (n : List Char) : Bool :=
+  !n.isEmpty && !n.contains '\n' && (n.head? != some '\'') && notPunLab n &&
+    (n.any needsQuote || (!(n.head?.any hardSpace) && !(n.getLast?.any hardSpace)))
+
+/-- `make_tree(node.get_newick(), underscore_unmunge=True)` for a single named tip beside a plain one:
+the name read back for the first tip (`none`: the parser raises or returns another shape) -/
+def nameRoundTrip (n : List Char) : Option String :=
+  match parseString (K := Unit) (fun _ => some ())
+      (newickStr (K := Unit) (.node "" none [.node (String.ofList n) none [], .node "z" none []])) with
+  | some (.node _ _ [.node m _ [], .node "z" _ []]) => some m
+  | _ => none
 
 end CogentModel.Phylo
